@@ -100,7 +100,8 @@ pub fn registry() -> Vec<Dyn> {
         ESliceMirrorU8, ESliceMirrorUsizeOpt, ESliceMirrorUsizeList, ESliceString, ESliceOwnedU8,
         ESlicePairsString, ESlicePairsStringVec, ESlicePairsStringList, ESliceSliceU8, ESliceSliceString, ESlice3U8,
         ESliceOptionString, ESliceTuple, ESliceResult, ESliceVecU32, ESliceHuffman, ESliceStringDict, ESliceColumns,
-        ESliceCollapsePairsString, ESliceCollapseString, ESliceColumnsTuple
+        ESliceCollapsePairsString, ESliceCollapseString, ESliceColumnsTuple,
+        ESliceStringPairsOwned, EOptionSliceU8, EResultSliceColumns, ETupleSliceOption
         ; usize:
         EPairsString, EPairsStringVec, EPairsStringList, EPairsStringDict,
         ECollapsePairsString, ECollapsePairsStringList,
@@ -108,7 +109,8 @@ pub fn registry() -> Vec<Dyn> {
         EMirrorUsize, EVecU32, EVecString, ECollapseVecU32,
         EPairsCodecLearn, EPairsHuffmanU8,
         EColumnsMirrorU8, EColumnsMirrorU8Vec, EColumnsMirrorU8List, EColumnsString, EColumnsPairsString,
-        EColumnsOwnedU8, EColumnsSliceU8, EColumnsColumns, EColumnsOptionString, EColumnsCollapsePairsString
+        EColumnsOwnedU8, EColumnsSliceU8, EColumnsColumns, EColumnsOptionString, EColumnsCollapsePairsString,
+        EStringPairsOwned, EColumnsVecU32
     );
     v
 }
